@@ -17,6 +17,12 @@ def dispatch (name : String) (lines : List String) : Option (List String) :=
   | "bonds" => some (Sympler.Bonds.driver lines)
   | "validate" => some (Sympler.Validate.driver lines)
   | "stages" => some (Sympler.Stages.driver lines)
+  | "dyn" => some (Sympler.Dyn.driver lines)
+  | "grid" => some (Sympler.PairSearch.driver lines)
+  | "collide" => some (Sympler.Collide.driver lines)
+  | "restart" => some (Sympler.Restart.driver lines)
+  | "threads" => some (Sympler.Threads.driver lines)
+  | "expr" => some (Sympler.Expr.driver lines)
   | _ => none
 
 def main : IO UInt32 := do
